@@ -66,7 +66,7 @@ def build_cases(seed: int, deep: bool) -> List[Tuple[str, List[Dict[str, Any]], 
         heavy_case = name.startswith(("connections_", "dynamic_", "traffic_"))
         cfgs = [base]
         if deep or not heavy_case:
-            cfgs = [base, dict(base, log_level=20, order="rev"), dict(base, timecode=True, log_level=40)]
+            cfgs = [base, dict(base, log_level=20, order="rev", debug=True), dict(base, timecode=True, log_level=40)]
         if deep and not heavy_case:
             cfgs += [dict(base, log_level=30, timing=False), dict(base, order="rev")]
         if name.startswith(("traffic_", "type_", "nested_periodic", "debug_tick", "info_subscriber")):
